@@ -1364,6 +1364,42 @@ Section RT.
     rewrite Er. reflexivity.
   Qed.
 
+  Lemma bad_map i g key vt m' kx plvb junk old : nth_error fs i = Some g -> fk g = KMap key vt (KStruct m') ->
+    map_key_ok key = true -> vt < two64 -> is_none kx = false -> wf_val f sc key kx = true ->
+    small (payload (pred f) sc key kx) -> small plvb -> sub m' ic (br_of plvb) = Err E_CRITICAL ->
+    forall u k s p pre, inv_mid i (VMap old) s p -> unk false u ->
+    (length (u ++ tlv (ftyp g) (payload (pred f) sc key kx) ++ tlv vt plvb ++ junk) < k)%nat ->
+    b_ploop sub k m ic s p (mkbr pre (u ++ tlv (ftyp g) (payload (pred f) sc key kx) ++ tlv vt plvb ++ junk)) = Err E_CRITICAL.
+  Proof using Hsub Hm Hf Hwf HQ.
+    clear Hsmall.
+    intros Hg Ek Hkey Hvt Hnk Hwk Hsk Hsv Hb u k s p pre Hmid Hu Hk.
+    assert (Hin : (i < n)%nat) by (apply nth_error_Some; congruence).
+    assert (Hi : (i < length vs)%nat) by (rewrite len_vs; exact Hin).
+    assert (Hf0 : exists f0, f = S f0) by (destruct f as [|f0]; [discriminate Hwk|exists f0; reflexivity]).
+    destruct Hf0 as [f0 Ef0]. rewrite Ef0 in Hwk, Hsk, Hk |- *. cbn [pred] in Hsk, Hk |- *.
+    set (plk := payload f0 sc key kx) in *.
+    pose proof Hmid as [Mv Mh Mp Mw Ml].
+    destruct (b_ploop_unk u Hu k s p pre (tlv (ftyp g) plk ++ tlv vt plvb ++ junk)) as [k1 [Hk1 E1]]; [clear - Mp Hin; lia|exact Hk|].
+    rewrite E1. destruct k1 as [|k2]; [exfalso; clear - Hk1; lia|].
+    rewrite (b_ploop_step sub m nm Hm ic). 2:{ apply tlv_app_nonnil. }
+    destruct (b_pstep_field sc sub m nm Hm ic i g plk (Z.of_nat (length (rev u ++ pre))) s p (rev u ++ pre) (tlv vt plvb ++ junk) Hg
+                ltac:(rewrite Ek; reflexivity) Hsk Mp) as [s1 [V1 [H1 E2]]].
+    { intros Ho. apply (walk_from_mid i (VMap old) s p); [clear - Hi; lia|exact Hmid|exact Ho]. }
+    rewrite E2. rewrite Ek. unfold rd_field.
+    assert (Hf0' : (S f0 <= Fmax)%nat) by (clear - Hf Ef0; lia).
+    destruct (seq_sub_facts key kx (map_key_seq _ Hkey) Hnk) as [Hk1' [_ Hk2']].
+    rewrite (b_rd_val_payload sc D Fmax Hsub f0 ic key kx _ _ Hf0' Hk1' Hwk Hk2' Hsk).
+    destruct (b_rd_header vt plvb (rev plk ++ rev (tl_enc (N.of_nat (length plk))) ++ rev (tl_enc (ftyp g)) ++ rev u ++ pre) junk Hvt Hsv) as [R1 R2].
+    fold plk. rewrite R1. cbn [negb]. rewrite R2. cbn [negb]. rewrite N.eqb_refl. cbn [negb].
+    destruct (bad_rd_val m' plvb (rev (tl_enc (N.of_nat (length plvb))) ++ rev (tl_enc vt) ++ rev plk ++ rev (tl_enc (N.of_nat (length plk))) ++ rev (tl_enc (ftyp g)) ++ rev u ++ pre) junk Hsv Hb) as [r' Er].
+    rewrite Er. reflexivity.
+  Qed.
+
+  Definition kbad_tail_map (g : field) (key : fkind) (vt : N) (m' : nat) (z : bytes) : Prop :=
+    exists kx u plvb junk, unk false u /\ is_none kx = false /\ wf_val f sc key kx = true /\
+      small (payload (pred f) sc key kx) /\ small plvb /\ sub m' ic (br_of plvb) = Err E_CRITICAL /\
+      z = u ++ tlv (ftyp g) (payload (pred f) sc key kx) ++ tlv vt plvb ++ junk.
+
   Definition kbad_tail (g : field) (m' : nat) (z : bytes) : Prop :=
     exists u plb junk, unk false u /\ small plb /\ sub m' ic (br_of plb) = Err E_CRITICAL /\ z = u ++ tlv (ftyp g) plb ++ junk.
 
@@ -1373,7 +1409,13 @@ Section RT.
                            y = u ++ tlv (ftyp g) plb ++ junk) \/
     (exists m' (lp : list (value * bytes)), fk g = KSeq (KStruct m') /\
         (forall e pl, In (e, pl) lp -> is_none e = false /\ wf_val f sc (KStruct m') e = true /\ small pl /\ payq (pred f) (KStruct m') e pl) /\
-        mixedk (kbad_tail g m') (map (fun ep => tlv (ftyp g) (snd ep)) lp) y).
+        mixedk (kbad_tail g m') (map (fun ep => tlv (ftyp g) (snd ep)) lp) y) \/
+    (exists m' key vt (lp : list ((value * value) * bytes)), fk g = KMap key vt (KStruct m') /\
+        (forall kx vx plv, In ((kx, vx), plv) lp ->
+            is_none kx = false /\ is_none vx = false /\ wf_val f sc key kx = true /\ wf_val f sc (KStruct m') vx = true /\
+            small (payload (pred f) sc key kx) /\ small plv /\ payq (pred f) (KStruct m') vx plv) /\
+        keys_nodup (map fst lp) = true /\
+        mixedk (kbad_tail_map g key vt m') (map (map_el g key vt) lp) y).
 
   Lemma fields_loop_bad j g : nth_error fs j = Some g ->
     forall es x k s p pre, inv 0 s p -> nelems (firstn j fs) (firstn j vs) es -> mixedk (kbad j g) es x -> (length x < k)%nat ->
@@ -1384,7 +1426,7 @@ Section RT.
     assert (Hjn : (j < n)%nat) by (apply nth_error_Some; congruence).
     destruct (prefix_loop_k (kbad j g) j 0%nat j ltac:(lia) ltac:(lia) ltac:(lia) es x k s p pre Hinv Hnel Hmix Hk)
       as [k' [s' [p' [pre' [x' [HK [Hinv' [Hk' E]]]]]]]].
-    rewrite E. destruct HK as [[m' [u [plb [junk [Ek [Hu [Hs [Hb ->]]]]]]]] | [m' [lp [Ek [Hl Hmk]]]]].
+    rewrite E. destruct HK as [[m' [u [plb [junk [Ek [Hu [Hs [Hb ->]]]]]]]] | [[m' [lp [Ek [Hl Hmk]]]] | [m' [key [vt [lp [Ek [Hl [Hnd Hmk]]]]]]]]].
     - apply (bad_single j g m' plb junk Hg Ek Hs Hb); assumption.
     - pose proof (inv_to_mid j g s' p' Hg Hinv') as Hmid0. rewrite Ek in Hmid0. cbn [zero_of] in Hmid0.
       destruct (step_seq_k (kbad_tail g m') j g (KStruct m') Hg Ek eq_refl lp [] [] x' k' s' p' pre' Hl Hmid0) as [k2 [s2 [p2 [pre2 [x2 [A1 [A2 [A3 A4]]]]]]]].
@@ -1392,5 +1434,13 @@ Section RT.
       + exact Hk'.
       + rewrite A4. inversion A1 as [y Hy|]; subst. destruct Hy as [u [plb [junk [Hu [Hs [Hb ->]]]]]].
         apply (bad_seq j g m' plb junk ([] ++ map fst lp) Hg Ek Hs Hb); assumption.
+    - pose proof (inv_to_mid j g s' p' Hg Hinv') as Hmid0. rewrite Ek in Hmid0. cbn [zero_of] in Hmid0.
+      destruct (wf_map_sub j g key vt (KStruct m') Hg Ek) as [Hkey [Hval Hvt]].
+      destruct (step_map_k (kbad_tail_map g key vt m') j g key vt (KStruct m') Hg Ek Hkey Hval Hvt lp [] [] x' k' s' p' pre' Hl Hnd Hmid0)
+        as [k2 [s2 [p2 [pre2 [x2 [A1 [A2 [A3 A4]]]]]]]].
+      + rewrite app_nil_r. exact Hmk.
+      + exact Hk'.
+      + rewrite A4. inversion A1 as [y Hy|]; subst. destruct Hy as [kx [u [plvb [junk [Hu [Hnk [Hwk [Hsk [Hsv [Hb ->]]]]]]]]]].
+        apply (bad_map j g key vt m' kx plvb junk ([] ++ map fst lp) Hg Ek Hkey Hvt Hnk Hwk Hsk Hsv Hb); assumption.
   Qed.
 End RT.
